@@ -66,6 +66,9 @@ pub assume_specification<T: PartialEq> [ <[T]>::contains ] (s: &[T], x: &T) -> (
 pub assume_specification<T, E> [ Option::<Result<T, E>>::transpose ] (o: Option<Result<T, E>>) -> (r: Result<Option<T>, E>)
     ensures r == (match o { None => Ok::<Option<T>, E>(None), Some(Ok(x)) => Ok(Some(x)), Some(Err(e)) => Err(e) });
 
+// str helpers whose results no contract depends on (uninterpreted results)
+pub assume_specification [ str::trim ] (s: &str) -> (r: &str);
+
 pub assume_specification [ String::into_bytes ] (s: String) -> (r: Vec<u8>)
     ensures r@ == utf8(s@);
 
